@@ -119,3 +119,8 @@ Theorem C11_search_is_binary_search : forall q m k, QInv cfg q -> check_key cfg 
   search cfg q m = binary_search_by (probe cfg k) dkv q.
 Proof. intros q m k HQ Hm. apply search_is_binary_search; [sc|sc|exact HQ|exact Hm]. Qed.
 Print Assumptions C11_search_is_binary_search.
+(* the same for the loop std has used since Rust 1.82 (branch-free: size halves, base moves unless Greater, one final comparison) *)
+Theorem C11_search_is_binary_search_182 : forall q m k, QInv cfg q -> check_key cfg k = Ok m ->
+  search cfg q m = binary_search_by2 (probe cfg k) dkv q.
+Proof. intros q m k HQ Hm. apply search_is_binary_search2; [sc|sc|exact HQ|exact Hm]. Qed.
+Print Assumptions C11_search_is_binary_search_182.
